@@ -17,9 +17,10 @@ def setup(chk, props):
     drv = vlib.build_driver("scn_driver", build, libs=("-lcgreen", "-lxml2"))
     # the functions of src/reporter.c translated whole from the current source, and the proofs that
     # they compute what Runner.v's read_results / base_finish_test / base_finish_suite say
-    chk.prove(props + ["Properties_Code_Reporter.v", "Properties_Code_Runner.v"])
+    chk.prove(props + ["Properties_Code_Reporter.v", "Properties_Code_Cute.v", "Properties_Code_Runner.v"])
     chk.cov["trusted_base"] = TRUSTED_C + [
         "tools/srccode.py + clang JSON AST: read_reporter_results(), reporter_finish_test(), reporter_finish_suite() and the notification functions are translated whole (loops included) into CLite programs on every run; coq/CLite.v (the interpreter that gives them meaning) and the refinement proofs of Lemmas_Code_Reporter.v tie Runner.v's model of them to the code",
+        "Properties_Code_Cute.v: cute_start_test(), cute_finish_test(), cute_failed_to_complete() of src/cute_reporter.c are translated whole into the same program as the base reporter's functions they call and proved: the '#success' line is printed exactly when the counters credited to the test across finish_test show no failure and no exception (Runner.finish_test's clean flag), for every pipe content; printf and the breadcrumb functions are external calls recorded with their arguments",
         "run_every_test(), run_named_test() (src/runner.c) with has_test(), count_tests() (src/suite.c) are translated whole and run by the extracted interpreter on heaps built from every small suite tree; the order of suite starts, suite fixtures, tests and suite ends is compared with Runner.run_node / run_named (function-level correspondence, not a proof)",
         "likewise run_the_test_code(), run_test_in_the_current_process(), run_test_suite(), run_single_test() of src/runner.c and in_child_process(), die_in(), stop() of src/posix_runner_platform.c (Properties_Code_Runner.v): the order of reset / setup / body / teardown / tally / completion that Runner.child_steps assumes is the order of calls of the translated code; external functions are calls recorded in a trace, answering from streams",
         "axioms: see coverage.print_assumptions"]
@@ -660,6 +661,17 @@ def check_C04(chk):
                         root.children = kids[:a] + [L.Suite(1, children=kids[a:b])] + kids[b:]
                     cases.append((root, rep, "forked"))
                     groups.append(g)
+    # fixed: a passing, a failing and a dying test, alone, flat and with each of them ending a sub-suite that runs
+    # before the others (what a reporter remembers from the end of a sub-suite meets the suite's own first test)
+    T, S = L.Test, L.Suite
+    mk3 = lambda: [T(0, body=[("c", 1)]), T(1, body=[("c", 1), ("c", 0)]), T(2, body=[("c", 1), ("die", "sig", 11)]), T(3, body=[("c", 1), ("c", 1)])]
+    for rep in ("cute", "xml", "text"):
+        for shp in range(9):
+            a, b, d, e = mk3()
+            kids = {0: [a, b, d, e], 1: [S(1, children=[a, b]), d, e], 2: [S(1, children=[b]), a, e, d], 3: [S(1, children=[d]), a, b, e],
+                    4: [a, S(1, children=[e, b]), d], 5: [S(1, children=[a]), S(2, children=[b]), e, d], 6: [a], 7: [e, a], 8: [S(1, children=[S(2, children=[d])]), e, a, b]}[shp]
+            cases.append((S(0, children=kids), rep, "forked"))
+            groups.append(nsets)
     runs, mrs = run_cases(drv, cases)
     correspondence(chk, cases, runs, mrs)
     seen = {}
@@ -688,7 +700,7 @@ def check_C04(chk):
                         native[nm] = ("xml testcase: failures, errors, skipped", (nf, ne, ns))
             elif rep == "cute":
                 pc = L.parse_cute(run.stdout)
-                for nm in order:
+                for nm in [t.name for s_, t in root.tests()]:
                     native[nm] = ("cute lines: #failure, #success, #error", (pc["failures"].count(nm), len(pc["status"].get(nm, [])), pc["errors"].count(nm)))
         except Exception:
             native = {}
